@@ -200,6 +200,10 @@ fn wrap(mut p: P, it: &J) -> P {
     if b(it, "guard") && !b(it, "guard_at_group") {
         p = p.guard(guard_ok, guard_msg(id)).boxed();
     }
+    // (`hide_inner`: the item itself is hidden, the repetition / default is put around the hidden item)
+    if b(it, "hide_inner") {
+        p = p.hide().boxed();
+    }
     let catch = b(it, "catch");
     p = match s(it, "arity") {
         "" | "one" | "sw" => p,
